@@ -1,0 +1,106 @@
+//go:build verif
+
+package httpd
+
+// Contracts for govc (contract-based deductive verification, see /verif/DESIGN.md).
+// Comment-only: with the tag off this file is not compiled, with it on it adds no code.
+
+//@ const-global methodTagMap
+
+//@ ghost field treeNode.inTrie bool
+//@ ghost field treeNode.np int
+//@ ghost field RouteInfo.registered bool
+
+//@ pure isTag(k string) bool = k == "/get" || k == "/head" || k == "/post" || k == "/put" || k == "/patch" || k == "/delete" || k == "/connect" || k == "/options" || k == "/trace" || k == "/*"
+//@ pure isParamKey(k string) bool = k == "/:param" || k == "/:any"
+
+// trie invariant (DESIGN C04): every child of a trie node is a trie node; np counts parameter edges from the root
+//@ pure trieOK() bool = forall n *treeNode, k string {has(n.next, k)} :: n.inTrie && has(n.next, k) ==>
+//@   | n.next[k] != nil && n.next[k].inTrie && k != "" && n.np >= 0
+//@   | && (isParamKey(k) ==> n.next[k].np == n.np + 1)
+//@   | && (isTag(k) ==> n.next[k].info != nil && n.next[k].info.registered && len(n.next[k].paramNameList) == n.np)
+//@   | && (!isParamKey(k) && !isTag(k) ==> n.next[k].np == n.np)
+
+//@ func (*treeNode).methodNodeOrNil
+//@   requires node != nil
+//@   modifies nothing
+//@   ensures exact: has(node.next, methodTagMap[method]) ==> resNode == node.next[methodTagMap[method]]
+//@   ensures fallback: !has(node.next, methodTagMap[method]) ==> resNode == node.next["/*"]
+
+// the documented choice of the method node: exact method first, then "*"
+//@ pure methodNodeSpec(n *treeNode, method string) *treeNode = ite(has(n.next, methodTagMap[method]), n.next[methodTagMap[method]], n.next["/*"])
+//@ pure infoOf(n *treeNode) *RouteInfo = ite(n == nil, nil, n.info)
+// one step of the documented walk at a segment boundary [left, right)
+//@ pure boundary(path string, right int) bool = !(right < len(path) && path[right] != '/')
+//@ pure skipSeg(path string, left int, right int) bool = right - left < 2 && right < len(path)
+
+//@ func findRoute
+//@   requires node != nil && node.inTrie && node.np == 0 && trieOK()
+//@   requires params != nil && len(params.V) == 0 && len(params.K) == 0
+//@   modifies params.K, params.V, spare(params.V)
+//@   ensures bind.len: result != nil ==> len(params.K) == len(params.V)
+//@   ensures nomatch: result == nil ==> len(params.K) == 0
+//@   ensures registered: result != nil ==> result.registered
+//@   ensures rootcase: len(path) <= 1 && methodNodeSpec(node, method) != nil ==> result == methodNodeSpec(node, method).info
+//@   loop 1
+//@     invariant length == len(path) && len(path) >= 1 && (path == old(path) || (old(path) == "" && path == "/"))
+//@     invariant 0 <= left && left <= right && right <= len(path) + 1
+//@     invariant left < right || right == 0
+//@     invariant forall j int {path[j]} :: left < j && j < right && j < len(path) ==> path[j] != '/'
+//@     invariant node != nil && node.inTrie
+//@     invariant len(params.V) == node.np
+//@     invariant len(params.K) == 0
+//@     invariant len(old(path)) <= 1 ==> methodNodeSpec(old(node), method) == nil
+//@     invariant (arr(params.V) == arr(old(params.V)) && off(params.V) == off(old(params.V)) && cap(params.V) == cap(old(params.V))) || fresh(arr(params.V))
+//@     decreases len(path) + 1 - right
+//@     step inside: !boundary(path, right) ==> next_node == node && next_left == left && next_right == right + 1
+//@     step skip: boundary(path, right) && skipSeg(path, left, right) ==> next_node == node && next_left == right && now(len(params.V)) == len(params.V)
+//@     step literal: boundary(path, right) && !skipSeg(path, left, right) && has(node.next, path[left+1:right]) ==> next_node == node.next[path[left+1:right]] && next_left == right && now(len(params.V)) == len(params.V)
+//@     step param: boundary(path, right) && !skipSeg(path, left, right) && !has(node.next, path[left+1:right]) ==> has(node.next, "/:param") && next_node == node.next["/:param"] && next_left == right && now(len(params.V)) == len(params.V) + 1 && (forall k int :: k == len(params.V) ==> now(params.V[k]) == path[left+1:right])
+//@     step keep: forall k int {now(params.V[k])} :: 0 <= k && k < len(params.V) ==> now(params.V[k]) == params.V[k]
+//@     exit none: result == nil && right <= len(path) ==> boundary(path, right) && !skipSeg(path, left, right) && !has(node.next, path[left+1:right]) && !has(node.next, "/:param") && (!has(node.next, "/:any") || methodNodeSpec(node.next["/:any"], method) == nil)
+//@     exit any: right <= len(path) && result != nil ==> boundary(path, right) && !skipSeg(path, left, right) && !has(node.next, path[left+1:right]) && !has(node.next, "/:param") && has(node.next, "/:any") && result == infoOf(methodNodeSpec(node.next["/:any"], method)) && (forall k int :: k == len(params.V) ==> now(params.V[k]) == path[left+1:])
+//@     exit done: right > len(path) ==> result == infoOf(methodNodeSpec(node, method))
+//@     exit names: result != nil ==> now(params.K) == ite(right > len(path), methodNodeSpec(node, method), methodNodeSpec(node.next["/:any"], method)).paramNameList
+
+//@ func (*Params).Get
+//@   requires ps != nil && len(ps.K) <= len(ps.V)
+//@   modifies nothing
+//@   ensures found: ok ==> exists i int :: 0 <= i && i < len(ps.K) && ps.K[i] == key && value == ps.V[i]
+//@   ensures missing: !ok ==> value == "" && forall i int {ps.K[i]} :: 0 <= i && i < len(ps.K) ==> ps.K[i] != key
+//@   loop 1
+//@     invariant -1 <= rangeindex && rangeindex < len(ps.K)
+//@     invariant forall i int {ps.K[i]} :: 0 <= i && i <= rangeindex ==> ps.K[i] != key
+//@     decreases len(ps.K) - rangeindex
+
+// ---- per-request state (DESIGN C05) ----
+
+// pool invariant of Mux.storePool: a pooled Store carries nothing of the request that used it
+//@ pure storePI(s *Store) bool = s.W != nil && s.P != nil && s.W.Origin == nil && s.W.Status == 0 && s.R == nil && s.I == nil && len(s.P.V) == 0 && len(s.P.K) == 0 && len(s.id) == 9
+//@ poolinv Mux.storePool s *Store :: storePI(s)
+
+//@ pure muxOK(mux *Mux) bool = mux.root != nil && mux.root.inTrie && mux.root.np == 0 && trieOK() && mux.routeNotFound != nil && mux.relayHandler != nil
+
+//@ ghost var relayCalls int
+//@ ghost var poolPuts int
+
+// A handler is arbitrary user code. Assumed about it: it does not replace the Store's W and P (and cannot touch
+// the unexported id).
+//@ functype HandlerFunc(store)
+//@   requires store != nil
+//@   modifies everything
+//@   mayPanic
+//@   ensures store.W == old(store.W) && store.P == old(store.P) && store.id == old(store.id)
+
+//@ func (*Mux).ServeHTTP
+//@   requires mux != nil && r != nil && r.URL != nil && muxOK(mux)
+//@   modifies everything
+//@   mayPanic
+//@   ensures dispatchOnce: relayCalls == old(relayCalls) + 1
+//@   onpanic noPut: poolPuts == old(poolPuts)
+//@   ghost before call HandlerFunc#1 assert target: store.I != nil && (store.I == mux.routeNotFound || store.I.registered)
+//@   ghost before call HandlerFunc#1 assert ri.status: store.W.Status == 0 && store.R == r
+//@   ghost before call HandlerFunc#1 assert ri.params: len(store.P.K) <= len(store.P.V) && (store.I != mux.routeNotFound ==> len(store.P.K) == len(store.P.V))
+//@   ghost before call HandlerFunc#1 assert ri.nomatch: store.I == mux.routeNotFound && !mux.routeNotFound.registered ==> len(store.P.K) == 0
+//@   ghost after call HandlerFunc#1 set relayCalls = relayCalls + 1
+//@   ghost after call Put#1 set poolPuts = poolPuts + 1
